@@ -224,7 +224,8 @@ def observe_case(arg: tuple[int, dict]) -> list[dict]:
 def judge(check: core.Check, cases: list[dict], label: str) -> None:
     parts = core.pmap(observe_case, [(i * 10, c) for i, c in enumerate(cases)], chunk=25)
     obs = [o for p in parts for o in p if o.get("evals")]
-    slim = [{"tid": o["tid"], "evals": o["evals"]} for o in obs]
+    slim = [{"tid": o["tid"], "evals": o["evals"], "tx": o["case"]["tx"], "ty": o["case"]["ty"], "prog": o["case"]["prog"]}
+            for o in obs]
     verdicts, stats = core.adjudicate("MiniPyTrace", "MiniPyTrace.cfg", slim, batch=4000, parallel=8)
     check.add_trace_stats(stats)
     check.evals(len(obs))
@@ -233,7 +234,10 @@ def judge(check: core.Check, cases: list[dict], label: str) -> None:
     for tid, vs in verdicts.items():
         o = by_tid[tid]
         for v in set(vs):
-            if v.startswith("viol:"):
+            if v.startswith("dev:"):
+                check.violation(v[4:], v[4:], {"case": {**o["case"], "argsx": [o["args"][0]], "argsy": [o["args"][1]]},
+                                               "src": o["src"], "args": o["args"], "source": label})
+            elif v.startswith("viol:"):
                 clause, _, idx = v[5:].partition(":")
                 bad = [o["evals"][int(idx) - 1]]
                 node = str(bad[0][0])
